@@ -31,7 +31,7 @@ def reference(cfg, d):
     os.makedirs(d, exist_ok=True)
     cfgpath = os.path.join(d, 'cfg.json')
     json.dump(cfg, open(cfgpath, 'w'))
-    main = os.path.join(d, 'ck.h5')
+    main = os.path.join(d, cfg.get('relpath', 'ck.h5'))
     trace = os.path.join(d, 'strace.txt')
     cmd = ['strace', '-f', '-y', '-o', trace, '-e', 'trace=' + TRACE_SET, '-P', main, '-P', main + '.tmp'] + \
         child_cmd(cfgpath, d, 'ref')
@@ -44,7 +44,7 @@ def reference(cfg, d):
     # against CheckpointIO.tla and its length is the number of kill points
     d2 = os.path.join(d, 'plain')
     os.makedirs(d2)
-    main2 = os.path.join(d2, 'ck.h5')
+    main2 = os.path.join(d2, cfg.get('relpath', 'ck.h5'))
     trace2 = os.path.join(d2, 'strace.txt')
     cmd = ['strace', '-f', '-y', '-o', trace2, '-e', 'trace=' + TRACE_SET, '-P', main2, '-P', main2 + '.tmp'] + \
         child_cmd(cfgpath, d2, 'kill')
@@ -118,12 +118,13 @@ def pristine_end(args):
     from .h5walk import content_digest
     d = os.path.join(base, 'pristine_%04d' % i)
     os.makedirs(d, exist_ok=True)
-    shutil.copyfile(os.path.join(refdir, 'snap_%04d.h5' % i), os.path.join(d, 'ck.h5'))
+    os.makedirs(os.path.dirname(os.path.join(d, cfg.get('relpath', 'ck.h5'))), exist_ok=True)
+    shutil.copyfile(os.path.join(refdir, 'snap_%04d.h5' % i), os.path.join(d, cfg.get('relpath', 'ck.h5')))
     cfgpath = os.path.join(d, 'cfg.json')
     json.dump(cfg, open(cfgpath, 'w'))
     rc = subprocess.run(child_cmd(cfgpath, d, 'resume'), cwd=common.VERIF, env=_env(),
                         stdout=subprocess.PIPE, stderr=subprocess.STDOUT, text=True, timeout=900)
-    out = (i, content_digest(os.path.join(d, 'ck.h5')) if rc.returncode == 0 else 'resume-of-pristine-failed')
+    out = (i, content_digest(os.path.join(d, cfg.get('relpath', 'ck.h5'))) if rc.returncode == 0 else 'resume-of-pristine-failed')
     shutil.rmtree(d, ignore_errors=True)
     return out
 
@@ -165,7 +166,7 @@ def kill_at(args):
     os.makedirs(d, exist_ok=True)
     cfgpath = os.path.join(d, 'cfg.json')
     json.dump(cfg, open(cfgpath, 'w'))
-    main = os.path.join(d, 'ck.h5')
+    main = os.path.join(d, cfg.get('relpath', 'ck.h5'))
     cmd = ['strace', '-f', '-o', '/dev/null', '-e', 'trace=' + TRACE_SET,
            # strace counts invocations PER SYSCALL: kill at the k-th invocation of syscall sc (= event n of the log)
            '-e', 'inject=%s:signal=SIGKILL:when=%d' % (sc, k),
